@@ -268,6 +268,17 @@ def systematic_cases():
         cases.append(mk_case(None, False, "same include() argument: the dependency's file defines a task %s" % dl, raw_cond=top, extra_files={"lib/COND": libc, "defs.cond": inc_ok, "lib/defs.cond": "RUN = 'true'\nrun_command(name='z', run='true')\n"}))
         cases.append(mk_case(None, False, "same include() argument: the dependency's file raises %s" % dl, raw_cond=top, extra_files={"lib/COND": libc, "defs.cond": inc_ok, "lib/defs.cond": "RUN = 1/0\n"}))
         cases.append(mk_case(None, False, "same include() argument: the target's file is missing %s" % dl, raw_cond=top, extra_files={"lib/COND": libc, "lib/defs.cond": inc_ok}))
+    # an included file is evaluated for each COND file that includes it: what one COND file does to the objects it got
+    # (in place) must not be visible in another one
+    shared = "BASE_ARGS = ['base']\nBASE_OPTIONS = {'threads': 1}\n"
+    spoil = {"list gets a non-primitive": "BASE_ARGS.append({'only': 'for-a'})\n", "dict gets a non-primitive": "BASE_OPTIONS['mode'] = ['a']\n", "list emptied and refilled": "del BASE_ARGS[:]\nBASE_ARGS.append(None)\n"}
+    for what, stmt in spoil.items():
+        for order in (["//a:u", "//lib:u"], ["//lib:u", "//a:u"]):
+            for inc in ("//cfg/defaults.cond", "../cfg/defaults.cond"):
+                cases.append(mk_case(None, True, "in-place change of an included object in another COND file (%s) %s %s" % (what, order, inc),
+                                     raw_cond=HELPERS[""] + "run_command(name='t', run='true', deps=%r)\n" % order,
+                                     extra_files={"cfg/defaults.cond": shared, "a/COND": "include(%r)\n" % inc + stmt + "run_experiment(name='u', run='true', args=['x'])\n",
+                                                  "lib/COND": HELPERS["lib"] + "include(%r)\n" % inc + "run_experiment(name='u', run='true', args=BASE_ARGS, options=BASE_OPTIONS)\n"}))
     cases.append(mk_case(None, True, "include twice", raw_cond="include('inc.cond')\ninclude('inc.cond')\n" + HELPERS[""] + use, extra_files={"inc.cond": inc_ok}))
     cases.append(mk_case(None, False, "include missing file", raw_cond="include('nope.cond')\n" + HELPERS[""] + ok_t))
     cases.append(mk_case(None, False, "include missing project-relative", raw_cond="include('//nope/x.cond')\n" + HELPERS[""] + ok_t))
